@@ -656,6 +656,28 @@ def replay_finding(kind, specs, deriv, dtype, finding):
         want = [None if (i is None or src[i] is None) else src[i].data.as_py() for i in ids]
         wit.update(got=got, expected=want)
         return got != want, wit
+    if problem == 'raises' and model is None and quantity.split('[')[0] == 'intersects_bounds' and str(detail).startswith('OutOfBounds'):
+        # the interpreted wrapper indexes outside a buffer on this path whatever the coordinates are; numba does not
+        # bounds-check, so the real call returns an answer computed from the wrong memory: demonstrate it with boxes
+        # that separate the elements (tight around the first vertex of each element, and one far away)
+        def first_vertex(x):
+            while isinstance(x, list) and x and isinstance(x[0], list):
+                x = x[0]
+            return x[:2] if isinstance(x, list) and len(x) >= 2 else None
+        cands = [box, (1000.0, 1000.0, 1001.0, 1001.0)]
+        for el in wit['elements']:
+            fv = first_vertex(el)
+            if fv is not None:
+                cands.append((fv[0] - 0.5, fv[1] - 0.5, fv[0] + 0.5, fv[1] + 0.5))
+        for cb in cands:
+            try:
+                got = real_quantity(arr, quantity, form, cb)
+                want = expected_quantity(kind, arr, dtype, quantity, form, cb)
+            except Exception:  # noqa: BLE001
+                continue
+            if list(got) != list(want):
+                wit.update(box=cb, got=got, expected=want, note='out-of-bounds indexing found symbolically; wrong answer on the real code')
+                return True, wit
     try:
         got = real_quantity(arr, quantity, form, box)
     except Exception as e:  # noqa: BLE001
